@@ -58,7 +58,7 @@ def write_replay(prop, case):
            "config": _jsonable(case.get("config")),
            "observed": _jsonable(case.get("observed")),
            "expected": _jsonable(case.get("expected")),
-           "environment": {k: os.environ[k] for k in ("PYTHONOPTIMIZE", "PYTHONHASHSEED", "VERIF_ONE_CPU") if os.environ.get("VERIF_CONFIG_PASS") and k in os.environ},
+           "environment": {k: os.environ[k] for k in ("PYTHONOPTIMIZE", "PYTHONHASHSEED", "VERIF_ONE_CPU", "LC_ALL", "LANG", "PYTHONUTF8", "PYTHONCOERCECLOCALE") if os.environ.get("VERIF_CONFIG_PASS") and k in os.environ},
            "case_repr": text}
     with open(path, "w") as f:
         json.dump(doc, f, indent=1, default=str)
@@ -86,7 +86,11 @@ def replay_environment(path):
 
 PASSES = [("optimize", "interpreter with assertions stripped (python -O: __debug__ is False)", {"PYTHONOPTIMIZE": "1"}),
           ("hashseed", "another string-hash seed (set and dict orders of strings differ)", {"PYTHONHASHSEED": "4242"}),
-          ("onecpu", "every worker process restricted to one CPU (os.sched_getaffinity reports a single core)", {"VERIF_ONE_CPU": "1"})]
+          ("onecpu", "every worker process restricted to one CPU (os.sched_getaffinity reports a single core)", {"VERIF_ONE_CPU": "1"}),
+          # the generator side handles plain ASCII text only, so it must work under any locale; the solver-side checks use non-ASCII
+          # action names, for which the tool itself depends on a UTF-8 locale (the launcher sets PYTHONUTF8=1)
+          ("clocale", "C locale without UTF-8 mode (text files default to ASCII)",
+           {"LC_ALL": "C", "LANG": "C", "PYTHONUTF8": "0", "PYTHONCOERCECLOCALE": "0"}, ("C08", "C11", "C15", "C17"))]
 LIGHT_FRACTION = 6
 
 
@@ -97,7 +101,10 @@ def configuration_passes(prop, tier, seed, jobs):
     import subprocess
     import tempfile
     procs = []
-    for name, what, env in PASSES:
+    for entry in PASSES:
+        name, what, env = entry[:3]
+        if len(entry) > 3 and prop not in entry[3]:
+            continue
         tmp = tempfile.mkdtemp(prefix="crverif_pass_")
         e = dict(os.environ, VERIF_CONFIG_PASS=name, VERIF_LIGHT=str(LIGHT_FRACTION), CR_VERIF_EVIDENCE_DIR=tmp, **env)
         p = subprocess.Popen([sys.executable, "-m", "mc.cli", prop, "--tier", tier, "--seed", str(seed), "--jobs", str(jobs)],
